@@ -104,6 +104,36 @@ def run_shard(desc):
                 viol([kind_, "enum"], detail, [])
             else:
                 part["inconclusive"].append("%s: %s" % (kind_, detail))
+    elif kind == "firstparse":
+        # the classification rules hold from the very first call of a process: inputs whose FIRST token is a word operator, a bool
+        # spelling, a function name, parsed as the first engine call (public entry points; the tokenizer hook initialises by itself)
+        firsts = ["not false", "not (1 in [1])", "AND [true, false]", "OR [false]", "true && x", "True", "False ? 1 : 2", "f(1) + 2", "in_x + 1", "nota", "- 1", "! true", "+ 2", "'s' beginWith 's'",
+                  "x not in [1]", "[not true]", "max(1, 2)", "beginWithx", "ORx + 1", "(not true)", "not\ttrue", "AND\n[true]"]
+        for i_, text in enumerate(firsts):
+            for via in ("parse", "exec", "execute"):
+                if (i_ + si) % 2 and via != "parse":
+                    continue
+                try:
+                    want = ref.rparse(ref.rtok(text))
+                except (ref.Abstain, ref.LexError, ref.ParseError):
+                    continue
+                st_ = {"op": "parse", "text": text, "want": "a"} if via == "parse" else dict({"op": "exec", "text": text, "want": "a"}, **({"via": "execute"} if via == "execute" else {}))
+                run = common.run_vexec([st_, {"op": "parse", "text": text, "want": "a"}], wd, "first-%d-%d-%s-%s" % (si, i_, via, profile), profile)
+                recs_ = run.steps()
+                if not run.ended or len(recs_) != 2:
+                    part["inconclusive"].append("first-parse run failed")
+                    continue
+                part["evaluations"] += 1
+                C["first_calls"] = C.get("first_calls", 0) + 1
+                first, second = recs_
+                if via == "execute":
+                    ok = True  # the one-shot entry point returns no tree; its text is judged through the second, warmed-up parse below
+                else:
+                    ok = first.get("p") == "ok" and first.get("ast") == want
+                if ok and second.get("ast") == want:
+                    part["classes"].add("first-call:%s:%s" % (via, text.split()[0][:8]))
+                else:
+                    viol(["first-call-classification", via], "as the first engine call of a fresh process (%s), `%s` parsed as %s; the documented reading (and the second call's) is %s" % (via, text, json.dumps(first.get("ast") or first.get("perr") or first.get("res")), json.dumps(want)), [st_])
     elif kind == "soup":
         tg = gen.TreeGen(rnd)
         inputs = []
@@ -211,6 +241,7 @@ def run(rep, tier):
     ns = 32000 if tier == "quick" else 600000
     per = 2000 if tier == "quick" else 20000
     shards += [("soup", i, 0, per, "release" if i % 2 else "verifdbg") for i in range(ns // per)]
+    shards += [("firstparse", i, 0, 0, "release" if i % 2 else "verifdbg") for i in range(2)]
     nc = 64 if tier == "quick" else 2000
     shards += [("config", i, 0, nc // 16, "release" if i % 2 else "verifdbg") for i in range(16)]
     for part in common.pmap(run_shard, shards):
